@@ -4,6 +4,8 @@ written from the property statements and EIP-155/2718/2930/1559.
 -/
 import HdwModel.Driver.Judge
 import HdwModel.Model.Json
+import HdwModel.Spec.Tx
+import HdwModel.Model.Tx
 
 namespace Hdw.Driver.Judge
 open Hdw Hdw.Driver Hdw.Json
@@ -179,5 +181,69 @@ def judgeTxParse (input : Bytes) (resp : String) : Verdict :=
         if resp == want then .holds
         else if anyMay && resp == "err" then .holds
         else .fails "accepted fields must carry exactly the integers / bytes written (or, for spellings the statement leaves open, be refused)"
+
+end Hdw.Driver.Judge
+
+namespace Hdw.Driver.Judge
+open Hdw Hdw.Driver Hdw.Json
+
+/-- C06 / C11 judge for `sign transaction`: `d` is the signer's key (from the account), the
+transaction fields come from the document.  Checks, on the implementation's output only:
+the guard; the bytes strictly decode to exactly the fields of the document with a tail
+`(v | yParity, r, s)`; `v = 35 + 2c + yParity` / `27 + yParity` / `yParity` as integers; the
+signature verifies and recovers to the signer over keccak256 of the EIP-155/2718 signing payload
+(which ends in `(c, 0, 0)` for legacy with chain id and starts with `c` for typed). -/
+def judgeSignTx (d : Nat) (json : Bytes) (sigOnly allow : Bool) (resp : String) : Verdict :=
+  match Hdw.Tx.parse json with
+  | .ok tx =>
+    let missing := match tx with | .legacy none .. => true | _ => false
+    if missing && !allow then expect (resp == "err") "legacy transaction without chain id must be refused unless the override flag is given"
+    else
+      let payload := Spec.Tx.signingPayload tx
+      let z := beVal (Prim.keccak256 payload)
+      let Q := Prim.Secp.mulG d
+      let n := Prim.Secp.n
+      let checkSig (r s par : Nat) : Verdict :=
+        if !(1 ≤ r && r < n && 1 ≤ s && s ≤ n / 2 && par ≤ 1) then .fails "signature scalars out of range"
+        else if !(Spec.Ecdsa.verify secpCurve Q z r s) then .fails "signature does not verify over keccak256 of the signing payload (chain id bound into what is signed)"
+        else if Spec.Ecdsa.recover secpCurve z r s (par == 1) != some Q then .fails "sender recovered from (payload, r, s, parity) is not the signer"
+        else .holds
+      match resp.splitOn " " with
+      | ["ok", out] =>
+        match unhex out with
+        | none => .fails "unparsable"
+        | some o =>
+          let text := (String.fromUTF8? ⟨o.toArray⟩).getD ""
+          if !(text.startsWith "0x" && text.endsWith "\n") then .fails "output must be 0x-hex and a newline" else
+          let hexPart := ((text.drop 2).dropEnd 1).toString
+          match hexDecode hexPart.toList with
+          | none => .fails "output is not hex"
+          | some bytes =>
+            if sigOnly then
+              if bytes.length != 65 then .fails "signature must be 65 bytes" else
+              let r := beVal (bytes.take 32); let s := beVal ((bytes.drop 32).take 32); let v := (bytes.drop 64).headD 0
+              if v != 27 && v != 28 then .fails "printed v must be 27 or 28" else checkSig r s (v.toNat - 27)
+            else
+              match Spec.Tx.decode bytes with
+              | none => .fails "strict decoder rejects the signed bytes"
+              | some dec =>
+                let tail : Option Spec.Tx.SigTriple := match dec with
+                  | .legacy _ _ _ _ _ _ t => t
+                  | .eip2930 _ _ _ _ _ _ _ _ t => t
+                  | .eip1559 _ _ _ _ _ _ _ _ _ t => t
+                match tail with
+                | none => .fails "signature tail missing"
+                | some t =>
+                  if dec != Spec.Tx.expected tx (some t) then .fails "decoded fields differ from the document"
+                  else
+                    let par? : Option Nat := match tx with
+                      | .legacy (some c) .. => if t.v == 35 + 2 * c then some 0 else if t.v == 36 + 2 * c then some 1 else none
+                      | .legacy none .. => if t.v == 27 then some 0 else if t.v == 28 then some 1 else none
+                      | _ => if t.v ≤ 1 then some t.v else none
+                    match par? with
+                    | none => .fails "v is not 35 + 2·chainId + yParity (legacy), 27/28 (no chain id) or yParity (typed) as an integer"
+                    | some par => checkSig t.r t.s par
+      | _ => .fails "signing an accepted transaction must succeed"
+  | _ => expect (resp == "err") "transaction that does not parse must be refused"
 
 end Hdw.Driver.Judge
